@@ -15,6 +15,7 @@ def handle (op : String) (args : Json) : Except String Json :=
   | "c01.run_history" => LK.Driver.C01.run args
   | "c06.measure" => LK.Driver.C06.run args
   | "c17.add_scalar" => LK.Driver.Misc.c17Scalar args
+  | "c05.global_time" => LK.Driver.Misc.c05GlobalTime args
   | "c17.add_list" => LK.Driver.Misc.c17List args
   | "c17.add_dense" => LK.Driver.Misc.c17Dense args
   | "c05.array_split" => LK.Driver.Misc.c05ArraySplit args
